@@ -151,7 +151,7 @@ def gen_tree(seed, cno, tier):
 def phase_gen(out, seed, tier, kv):
     d = os.path.join(out, "cases")
     os.makedirs(d, exist_ok=True)
-    n = 1500 if tier == "quick" else 30000
+    n = 1500 if tier == "quick" else 12000
     with open(os.path.join(d, "cases.jsonl"), "w") as f:
         for c in range(n):
             data, family, detail, leaves = gen_tree(seed, c, tier)
